@@ -8,7 +8,8 @@ from ..val import veq, clone, drop_nulls, has_marker
 
 ID = 'C02'
 NEED_BINS = True
-SIZES = {'quick': 10000, 'thorough': 500000}
+SIZES = {'quick': 10000, 'thorough': 1500000}
+REQUIRED_EVENTS = ['layer_docs_agreed', 'selection_events_checked', 'isolation_reruns']
 RULE = ('base streams of 1-4 documents, then 1-3 layers of 1-3 documents each; a layer document is derived by labelled edits from the model '
         'state of one of the documents it will hit, with or without document-level $match (one hit / many / none / {} / $invert / null=append), '
         'parents = the previous layer\'s documents (file-style) or a subset. Executed through successive MergeDocument calls with the hook '
